@@ -1091,6 +1091,29 @@ def gen_enter_effects(rng, n):
             p["defs"][str(t)]["always"] = True
         leaves = leafy(members)
         c = rng.choice(leaves)
+        r = rng.random()
+        if r < 0.35 and len(leaves) >= 3:
+            # an enter context that replaces a later sibling (remove + extend: the list keeps its length), by one
+            # doer or split over two (one extends, a later one removes a third)
+            ci = leaves.index(c) if leaves.index(c) < len(leaves) - 1 else 0
+            c = leaves[ci]
+            later = leaves[ci + 1:]
+            victim = rng.choice(later)
+            nxt = max(int(i) for i in p["defs"]) + 1
+            p["defs"][str(nxt)] = {"kind": rng.choice(["func", "bound", "doer", "doergen"]),
+                                   "script": [Y() for _ in range(rng.randint(1, 4))] + [{"es": [], "out": ["r", "true"]}]}
+            effs = [["rem", t, [victim]], ["ext", t, [nxt]]]
+            if rng.random() < 0.5:
+                effs.reverse()
+            others = [m for m in later if m != victim and leaves.index(m) < leaves.index(victim)]
+            if others and rng.random() < 0.4:
+                p["defs"][str(c)]["script"][0]["es"].append(effs[1] if effs[1][0] == "ext" else effs[0])
+                rem = effs[0] if effs[0][0] == "rem" else effs[1]
+                p["defs"][str(rng.choice(others))]["script"][0]["es"].append(rem)
+            else:
+                p["defs"][str(c)]["script"][0]["es"] += effs
+            out.append(p)
+            continue
         if rng.random() < 0.6:
             nxt = max(int(i) for i in p["defs"]) + 1
             new = []
